@@ -232,8 +232,8 @@ def self_test():
 
 
 LAWS = [
-    given_law("hi_covariance", cfgs(24), hi_body, {"quick": 9, "thorough": 40}, shards={"quick": 3, "thorough": 16}),
-    given_law("sub_harmonics", cfgs(16), sh_body, {"quick": 6, "thorough": 30}, shards={"quick": 3, "thorough": 16}),
-    given_law("hi_covariance_large", cfgs(32), hi_body, {"quick": 1, "thorough": 8}, shards={"quick": 2, "thorough": 8}),
+    given_law("hi_covariance", cfgs(24), hi_body, {"quick": 12, "thorough": 100}, shards={"quick": 6, "thorough": 16}),
+    given_law("sub_harmonics", cfgs(16), sh_body, {"quick": 8, "thorough": 80}, shards={"quick": 6, "thorough": 16}),
+    given_law("hi_covariance_large", cfgs(32), hi_body, {"quick": 2, "thorough": 20}, shards={"quick": 3, "thorough": 16}),
     plain_law("trends", trend_cases, trend_body, shards={"quick": 2, "thorough": 2}),
 ]
